@@ -171,9 +171,15 @@ class JSONCodec(AbstractMetadataCodec):
         else:
             result = json.loads(encoded.decode())
 
-        # Assign default values
+        # Assign default values. Each decoded row gets its own copy of a default,
+        # so that writing into one row cannot change later rows or the schema.
         if isinstance(result, dict):
-            return dict(self.defaults, **result)
+            filled = {
+                key: result[key] if key in result else copy.deepcopy(value)
+                for key, value in self.defaults.items()
+            }
+            filled.update(result)
+            return filled
         else:
             return result
 
